@@ -52,6 +52,13 @@ theorem hasDerivAt_deriv2 (t : LinearInfiniteRTransform ℝ) (_ht : t.Admissible
     (_hx : Interior t x) : HasDerivAt t.deriv2 (t.deriv3 x) x := by
   rw [deriv2_eq, deriv3_eq]; exact hasDerivAt_const x _
 
+/-- The `isinstance(x, Number)` branches of `deriv`, `deriv2`, `deriv3` compute the same values as the array branches. -/
+theorem scalar_branch_eq (t : LinearInfiniteRTransform ℝ) (x : ℝ) :
+    t.deriv_scalar x = t.deriv x ∧ t.deriv2_scalar x = t.deriv2 x ∧ t.deriv3_scalar x = t.deriv3 x := by
+  rw [deriv_eq]
+  refine ⟨?_, rfl, rfl⟩
+  simp only [LinearInfiniteRTransform.deriv_scalar]
+
 example : ∃ t : LinearInfiniteRTransform ℝ, t.Admissible ∧ 0 < t.b ∧ Interior t (7 / 2) :=
   ⟨⟨1 / 10, 5, 3⟩, by rw [admissible_iff]; norm_num, by norm_num,
     by simp [Interior, LinearInfiniteRTransform.domain_lo]⟩
